@@ -336,6 +336,16 @@ def apiCase (prog : String) : String := orBad do
     | .b v => pure (n ++ "=" ++ toString v)
   pure (" ".intercalate outs)
 
+/-- tower operation under a receiver / operand aliasing pattern: the model is a function of the operand VALUES,
+so aliasing only matters through "both operands are the same object" (the second operand is then the first) -/
+def towerAlias (f : String → List String → String) (op alias : String) (args : List String) : String :=
+  if alias == "n" || alias == "ca" || alias == "cb" then f op args
+  else if alias == "ab" || alias == "cab" then
+    match args with
+    | [a, _] => f op [a, a]
+    | _ => f op args
+  else bad
+
 def step (line : String) : String :=
   match words line with
   | ["f", op, alias, a, b] => fieldCase op alias a b
@@ -343,6 +353,9 @@ def step (line : String) : String :=
   | ["fx", "dec", a] => orBad do pure (gfpHex (GFp.montDecode (← gfpOf a)))
   | ["fx", "inv", a] => orBad do pure (gfpHex (GFp.invert (← gfpOf a)))
   | ["fx", "new", k] => orBad do pure (gfpHex (GFp.newGFp (← k.toInt?)))
+  | "t2a" :: op :: alias :: args => towerAlias t2Case op alias args
+  | "t6a" :: op :: alias :: args => towerAlias t6Case op alias args
+  | "t12a" :: op :: alias :: args => towerAlias t12Case op alias args
   | "t2" :: op :: args => t2Case op args
   | "t6" :: op :: args => t6Case op args
   | "t12" :: op :: args => t12Case op args
